@@ -209,6 +209,16 @@ pub fn c10(tier: &str, seed: u64) -> Vec<Case> {
             }
         }
     }
+    // IPSECKEY, every gateway shape, cut at every length (RDLENGTH consistent; 20 octets that belong to nobody behind it):
+    // never a panic, and the unassigned gateway type is rejected at every length that includes the type octet
+    for m in crate::props::pk::ipseckey_cut_messages(&[0u8; 20]) {
+        let out = parse_out(&m);
+        let mut c = Case::new(format!("parse {}", text::hex(&m)), out.clone()).tag("type:IPSECKEY").tag("decode-cut");
+        let rdlen = u16::from_be_bytes([m[25], m[26]]) as usize;
+        if out == "panic" { c = c.fail("layout-read", format!("IPSECKEY: RDATA cut to {} bytes makes the parser panic", rdlen)); }
+        else if rdlen >= 2 && m[28] == 9 && class_of(&out) == "ok" { c = c.fail("accepted-ipseckey-gateway-type", "an IPSECKEY with the unassigned gateway type 9 is accepted".into()); }
+        v.push(c);
+    }
     // structural rules: encodings that break them must be rejected
     for (b, rule) in rule_breakers(thorough, seed) {
         let out = parse_out(&b);
